@@ -967,6 +967,31 @@ def c04_pairs(seed):
 
 # ---------------------------------------------------------------- C17: @Ground and re-runs
 
+def c17_dataset_pairs(seed):
+  """two attached database files and an explicit @Dataset: the grounded table must land in the file of
+  the named dataset, and a second program sharing only that file reads it"""
+  from .ground import HistorySide, DB_PLACEHOLDER, DB_PLACEHOLDER2
+  rnd = random.Random(seed ^ 0xd17)
+  A = gen.A
+  x, y = Var('x'), Var('y')
+  rules = [Rule('M', [x, y], body=rnd.choice([A('E', x, y), Conj([A('E', x, y), Cmp('!=', x, y)])])),
+           Rule('N', [x], body=Conj([A('M', x, y), A('G', x)]))]
+  first = rnd.choice(['logica_home', 'other'])
+  ann = ['@AttachDatabase("%s", "%s");' % (first, DB_PLACEHOLDER), '@AttachDatabase("store", "%s");' % DB_PLACEHOLDER2,
+         '@Dataset("store");', '@Ground(M);']
+  prog = Program(rules, ann, ext=gen.EXT)
+  plain = Program(rules, [], ext=gen.EXT)
+  common = dict(tables=['E', 'G'], K=2, strings_list=[])
+  notes = 'dataset store next to %s' % first
+  return [dict(a=HistorySide(prog.text(), ['N'], label='grounded run'), b=Side(plain.text(), 'N', label='no @Ground'),
+               label='rows N %s' % notes, **common),
+          dict(a=HistorySide(prog.text(), ['N'], ('table', 'store.M', DB_PLACEHOLDER2), label='table in the store file'),
+               b=Side(plain.text(), 'M', label='predicate alone'), label='table store.M after N %s' % notes, **common),
+          dict(a=HistorySide(prog.text(), ['N', 'N'], ('table', 'store.M', DB_PLACEHOLDER2), label='re-run'),
+               b=HistorySide(prog.text(), ['N'], ('table', 'store.M', DB_PLACEHOLDER2), label='first run'),
+               label='rerun table %s' % notes, **common)]
+
+
 def c17_pairs(seed):
   from .ground import HistorySide, DB_PLACEHOLDER
   rnd = random.Random(seed ^ 0xc17)
@@ -1128,7 +1153,7 @@ def c12_pairs(seed):
   A = gen.A
   x, y = Var('x'), Var('y')
   layout = ['chain', 'diamond', 'same_private', 'shared_base', 'alias', 'two_roots', 'self_apply',
-            'shared_base', 'roots_shadow', 'module_functor'][seed % 10]
+            'double_import', 'roots_shadow', 'module_functor'][seed % 10]
   files = {}
   flat = []
   roots = ('',)
@@ -1201,6 +1226,25 @@ def c12_pairs(seed):
     main_imports = [('m2', 'P2', None)]
     flat = (flat_module(r1, 'M1x_') + flat_module(r2, 'M2x_', {'P1': 'M1x_P1'}) +
             [rename_rule_preds(r, {'P2': 'M2x_P2'}) for r in main_rules])
+  elif layout == 'double_import':
+    # one predicate imported twice under two names (plain and alias, or two aliases), in main or in
+    # an intermediate module; main has an unrelated predicate named like the alias
+    r1 = module_rules(rnd, own='P1')
+    files['m1.l'] = render_module(r1, [])
+    names = rnd.choice([(None, 'Q'), ('Q', None), ('Q', 'Q2')])
+    first, second = [n or 'P1' for n in names]
+    if rnd.random() < 0.5:
+      main_rules = [Rule('T', [x], body=Conj([A(first, x), A(second, x)]))]
+      main_imports = [('m1', 'P1', names[0]), ('m1', 'P1', names[1])]
+      flat = flat_module(r1, 'M1x_') + [rename_rule_preds(r, {first: 'M1x_P1', second: 'M1x_P1'}) for r in main_rules]
+    else:
+      mid = [Rule('Mid', [x], body=Conj([A(first, x), A(second, x)]))]
+      files['mid.l'] = render_module(mid, [('m1', 'P1', names[0]), ('m1', 'P1', names[1])])
+      main_rules = [Rule('Q', [x], body=Conj([A('G', x), Cmp('>', x, Num(70))])),
+                    Rule('T', [x], body=Disj([A('Mid', x), A('Q', x)]))]
+      main_imports = [('mid', 'Mid', None)]
+      flat = (flat_module(r1, 'M1x_') + [rename_rule_preds(r, {'Mid': 'MIDx_Mid', first: 'M1x_P1', second: 'M1x_P1'}) for r in mid] +
+              [rename_rule_preds(r, {'Mid': 'MIDx_Mid'}) for r in main_rules])
   elif layout == 'roots_shadow':
     # the same module path exists under both import roots with different contents: the first
     # root that has the file wins (parse.ParseImport walks the roots in order)
